@@ -23,6 +23,7 @@ EXPLANATION = (
     "dataclasses.replace(self, k=...) names a keyword the class's effective __init__ accepts; the custom-gate "
     "matrix factory substitutes by position (zip of params_ordering with the arguments). "
     "(D3s) sibling agreement of the sub_symbols arms: the Expr arm substitutes simultaneously (subs(..., simultaneous=True) / xreplace), like the Symbol arm's dictionary lookup."
+    ' Round 4: (D6) the numeric and the symbolic embedding are the same construction on the same arguments and lifted_matrix has no other exit (shared with C01-D5).'
 )
 RULE_TEXT = "instances = bind/replace_params/free_symbols methods of all gate, operation and circuit classes, sub_symbols arms, replace() call sites; distinct by (rule, construct)"
 ASSUMPTIONS = [
